@@ -548,6 +548,13 @@ impl HashColumn {
 		if tables.ref_count.is_some() {
 			tables.get_ref_count().flush()?;
 		}
+		// Tables queued for reindexing still receive writes from enacted log records.
+		for entry in self.reindex.read().queue.iter() {
+			match entry {
+				ReindexEntry::Index(table) => table.flush()?,
+				ReindexEntry::RefCount(table) => table.flush()?,
+			}
+		}
 		Ok(())
 	}
 
